@@ -63,12 +63,19 @@ def norm(t, keep_conv=False):
         if base[0] == "vpay":  # variant payload projection
             if name in ("0",):
                 v = base[2]
+                x = base[1]
+                # the payload of a value that was built as that very variant right here (an expanded combinator:
+                # `Some(v) => Ok(v)` followed by `?`) is the operand
+                if x[0] == "agg" and x[1][0] == "adt" and len(x[2]) == 1:
+                    built = x[1][2]
+                    if (v, built) in (("Some", "Some"), ("Ok", "Ok"), ("Continue", "Ok"), ("Continue", "Some"), ("Err", "Err")):
+                        return x[2][0]
                 if v in ("Some",):
-                    return ("some", base[1])
+                    return ("some", x)
                 if v in ("Ok", "Continue"):
-                    return ("ok", base[1])
+                    return ("ok", x)
                 if v in ("Err", "Break"):
-                    return ("err", base[1])
+                    return ("err", x)
             return ("vfield", base[1], base[2], name)
         return ("field", base, name)
     if k == "downcast":
